@@ -191,7 +191,20 @@ pub fn install_panic_hook() {
         if PANIC_TRACE.load(Ordering::Relaxed) {
             eprintln!("[panic captured] {msg} @ {loc}");
         }
-        PANICS.with(|p| p.borrow_mut().push(format!("{msg} @ {loc}")));
+        // attribute the panic: innermost frame that belongs to the crate under test or to the harness
+        let bt = std::backtrace::Backtrace::force_capture().to_string();
+        let mut origin = "unknown";
+        for line in bt.lines() {
+            if line.contains("librqbit_utp::") {
+                origin = "lib";
+                break;
+            }
+            if line.contains("utpverif::") && !line.contains("utpverif::engine") {
+                origin = "harness";
+                break;
+            }
+        }
+        PANICS.with(|p| p.borrow_mut().push(format!("{msg} @ {loc} [origin:{origin}]")));
     }));
 }
 
@@ -391,6 +404,11 @@ impl Ctx {
         signature: &str,
         detail: &str,
     ) {
+        if signature == "harness-panic" {
+            let path = write_replay::<C>(self.id, case, original, signature, detail);
+            self.engine_error(format!("harness panic (case saved to {}): {detail}", path.display()));
+            return;
+        }
         if let Some(e) = findings().known(self.id, signature) {
             let ent = self
                 .known_hits
@@ -792,10 +810,15 @@ pub fn run_guarded<C: CheckDef>(case: &C::Case, trace: bool) -> Outcome {
             }
             o
         }
-        None => Outcome::violation(
-            "panic",
-            format!("panic while running case: {}", panics.join(" ; ")),
-        ),
+        None => {
+            // a panic raised inside the crate under test (path /repo/…) is a finding; a panic
+            // anywhere else is a defect of the harness and must never count as a violation
+            let in_lib = panics.iter().any(|p| p.contains("@ /repo/") || p.contains("[origin:lib]"));
+            Outcome::violation(
+                if in_lib { "panic" } else { "harness-panic" },
+                format!("panic while running case: {}", panics.join(" ; ")),
+            )
+        }
     }
 }
 
